@@ -104,6 +104,10 @@ def _cases(tier, rng):
         # it with cleanup=False, computing the rest in worker processes
         yield {"prog": prog, "storage": ("shared_memory_dict", "dict", "file_array")[q % 3], "scoped": False,
                "after_partial_run": True}
+        # history: the folder held an earlier, complete run of another program (other names, shapes and storage) that
+        # was loaded in this process; the run under test replaces it (cleanup=True): every later load shows this run
+        yield {"prog": prog, "storage": STORAGES[(q + 1) % 3], "scoped": False,
+               "after_loaded_run": progs.gen_map_program(rng, n_funcs=rng.randint(1, 2), allow_generator=False)}
         # an input whose class is defined in __main__ of the process that runs the map (a script, a notebook)
         scalars = [n for n, d in prog["inputs"].items() if not d.get("omit")]
         if scalars:
@@ -142,6 +146,22 @@ def _info(ri):
             "defaults": {k: progs.to_nested(v) for k, v in ri.defaults.items()}}
 
 
+def _loaded_run(prog0, folder, storage):
+    """An earlier complete run of another program into the folder, loaded through every entry point in this process."""
+    from pipefunc.map import load_outputs, load_xarray_dataset
+    from pipefunc.map._run_info import RunInfo
+    try:
+        p0 = progs.build_pipeline(prog0)
+        p0.map(progs.real_inputs(prog0), run_folder=folder, parallel=False, storage=storage, **progs.map_kwargs(prog0))
+        for f in prog0["funcs"]:
+            for o in f["outputs"]:
+                load_outputs(o, run_folder=folder)
+        RunInfo.load(folder)
+        load_xarray_dataset(run_folder=folder)
+    except Exception:  # noqa: BLE001  (whatever the earlier run did: the run under test starts from this folder)
+        pass
+
+
 def _check(case):
     from pipefunc.map import load_outputs
     from pipefunc.map._run_info import RunInfo
@@ -167,6 +187,8 @@ def _check(case):
         if case.get("after_died_run"):
             _died_run(p, real_in, folder, stor, mk)
             extra = {"cleanup": False}
+        if case.get("after_loaded_run"):
+            _loaded_run(case["after_loaded_run"], folder, ("dict", "file_array")[len(prog["funcs"]) % 2])
         pool = None
         if case.get("after_partial_run"):
             ax = next((a for f in prog["funcs"] if f.get("spec") for n, axes in f["spec"]["inputs"] if n in prog["inputs"]
